@@ -17,7 +17,7 @@ Requirements for each change:
   * The existing test suite (unedited) still passes with the change applied. Run it and say so.
   * Small and plausible: a few lines in src/jinja2/*.py, no new files in the package, no test edits, no syntax tricks, no comments that give it away.
   * The two changes for one property must use different mechanisms / code sites.
-  * A demonstration: a small standalone Python program `demo.py` (uses only jinja2 and the stdlib, exits 0 and prints OK when the property holds on its input, exits 1 and prints what went wrong when it does not). It must FAIL (exit 1) with your change and PASS (exit 0) on the unchanged worktree (verify both: `git stash` / `git diff > patch.diff; git checkout -- .` etc.).
+  * A demonstration: a small standalone Python program `demo.py` (uses only jinja2 and the stdlib, exits 0 and prints OK when the property holds on its input, exits 1 and prints what went wrong when it does not). It must FAIL (exit 1) with your change and PASS (exit 0) on the unchanged worktree (verify both: `git diff > patch.diff; git apply -R patch.diff` and `git apply patch.diff` — do NOT use `git stash`, the stash is shared between all worktrees).
 
 Deliverables, for change k (1 or 2) of property <ID>: directory /tmp/seed-out/<ID>-<k>/ containing
   patch.diff   (output of `git diff` in the worktree, applies with `git apply` at the repository's HEAD)
